@@ -1,6 +1,7 @@
 #ifdef	HAVE_CONFIG_H
 #include <config.h>
 #endif /* HAVE_CONFIG_H */
+#include <limits.h>
 
 /*
  * Support for parse trees for the compiler.
@@ -470,7 +471,8 @@ parse_node_t* optimize_loop_test (parse_node_t * pn) {
           CREATE_OPCODE_2 (ret, F_LOOP_COND_LOCAL, 0,
                            pn->l.expr->l.number, pn->r.expr->l.number);
         }
-      else if (pn->r.expr->kind == NODE_NUMBER)
+      else if (pn->r.expr->kind == NODE_NUMBER &&
+               pn->r.expr->v.number >= INT_MIN && pn->r.expr->v.number <= INT_MAX) /* the opcode carries a 32-bit constant */
         {
           CREATE_OPCODE_2 (ret, F_LOOP_COND_NUMBER, 0,
                            pn->l.expr->l.number, pn->r.expr->v.number);
